@@ -97,6 +97,10 @@ def run(scn):
     wd = build.workdir()
     try:
         return _run(scn, res, wd)
+    except tapeload.Hang as e:
+        res['discard'] = 'HANG: simulated LOAD on the C engine did not return and was killed'
+        res['detail'] = str(e)
+        return res
     finally:
         shutil.rmtree(wd, ignore_errors=True)
 
